@@ -12,6 +12,14 @@ SPLITTERS = {
     "threading::split_v_two_images_for_threading": ("v", 2),
     "threading::split_h_one_image_for_threading": ("h", 1),
 }
+_SPLITTER_TAILS = {k.rsplit("::", 1)[-1]: v for k, v in SPLITTERS.items()}
+
+
+def _splitter(name):
+    """(axis, images) of a band splitter, whatever module it lives in"""
+    return SPLITTERS.get(name) or (_SPLITTER_TAILS.get(name.rsplit("::", 1)[-1])
+                                   if re.match(r"^([a-z_0-9]+::)*[a-z_0-9]+$", name) else None)
+
 
 
 def _closure_of_for_each(prog, f):
@@ -134,14 +142,14 @@ def offset_once(rep, prog, rule):
     for f in sorted(prog.fns.values(), key=lambda x: x.id):
         if f.kind == "closure":
             continue
-        splits = [c for c in f.calls() if c.name in SPLITTERS]
+        splits = [c for c in f.calls() if _splitter(c.name)]
         if not splits:
             continue
         rep.touch(f)
         sym = Sym(f)
         for s in splits:
             n += 1
-            kind, nimg = SPLITTERS[s.name]
+            kind, nimg = _splitter(s.name)
             key = f.name
             cl = [(c, k) for c, k in _closure_of_for_each(prog, f) if k is not None]
             if len(cl) != 1:
@@ -196,7 +204,7 @@ def offset_once(rep, prog, rule):
             ot = kcalls[0]
             seq = [c for c in f.calls() if c.res == ot.res and c.bb != s.bb]
             if len(seq) != 1:
-                others = [c for c in f.calls() if prog.call_targets(c) and c.name not in SPLITTERS
+                others = [c for c in f.calls() if prog.call_targets(c) and not _splitter(c.name)
                           and not c.name.endswith("::new")]
                 rep.bad(rule, key + "|same-op", s.at, "the threaded branch calls %s but the "
                         "sequential branch calls %s" % (ot.name, [c.name for c in others][:3]))
@@ -285,10 +293,10 @@ def axis(rep, prog, rule):
         if f.kind == "closure":
             continue
         for c in f.calls():
-            if c.name not in SPLITTERS:
+            if not _splitter(c.name):
                 continue
             n += 1
-            kind = SPLITTERS[c.name][0]
+            kind = _splitter(c.name)[0]
             meth = f.d.get("method") or f.name.rsplit("::", 1)[-1]
             want = "v" if meth.startswith("vert_convolution") else "h"
             if kind == want:
@@ -404,9 +412,9 @@ def run(rep, tier):
         # than rows": no band is empty (the cropped wrappers unwrap a constructor that rejects
         # an empty band)
         rep.call(c14.sizes, rep, prog, "C08.band-sizes", siblings=True)
-        n = rep.call(c03.arith, rep, prog, "C08.arith", only=lambda f: f.file == "src/threading.rs") or 0
+        n = rep.call(c03.arith, rep, prog, "C08.arith", only=lambda f: f.file == prog.file_now("src/threading.rs")) or 0
         rep.floor("C08.arith", "arithmetic asserts in threading.rs", n, 8)
-        rep.call(index_rules.unwraps, rep, prog, "C08.unwrap", only=lambda f: f.file == "src/threading.rs", floor=6)
+        rep.call(index_rules.unwraps, rep, prog, "C08.unwrap", only=lambda f: f.file == prog.file_now("src/threading.rs"), floor=6)
     if tier == "thorough":
         rep.set_cfg("witness")
         rep.call(witness.report, rep, "C08.types", ["W3", "W5"])
